@@ -1,5 +1,6 @@
 import Enc.Model.Json.CodecChoiceDec
 import Enc.Spec.Json.StdCodecChoiceDec
+import Enc.Spec.Json.EmbedCycle
 import Enc.Lemmas.JsonCodecChoiceDecTerm
 import Enc.Lemmas.JsonCodecChoiceDecStd
 import Enc.Lemmas.JsonCodecChoiceDecCache
@@ -9,7 +10,7 @@ import Enc.Lemmas.JsonCodecChoiceDecCache
 Model: `Enc/Model/Json/CodecChoiceDec.lean` (`codecDecF` = the decode half of constructCodec as written, threading
 `seen`; `chooseDec`; `expandDecD`; `nullActM`). Specification: `Enc/Spec/Json/StdCodecChoiceDec.lean` (`stdDecD` =
 encoding/json's `indirect` / `d.object` / `literalStore` rule; `nullActS`). Correspondence: harness op
-`json.codecchoicedec` (harness/c01codecdec.go: ~3900 zoo values × document variants, three cache histories each), driver
+`json.codecchoicedec` (harness/c01codecdec.go: ~4800 zoo values × document variants, three cache histories each), driver
 `Enc/Driver/JsonCodecDec.lean`.
 
 Statements only; proofs in Enc/Lemmas/JsonCodecChoiceDec{Seen,Term,Std,Cache}.lean.
@@ -75,13 +76,15 @@ as on the encode side, and the field lists — `string` option, embedded structs
     theorem chooseDec_eq_std (env : Env) (t : TD) (a : Bool)
         (hk : no map key type, anywhere, has both unmarshaling methods)
         (hp : no unnamed struct type, anywhere but as the target of a pointer, has a promoted unmarshaling method)
-        (he : no struct embeds a struct type that contains the embedding struct again) (d : Nat) :
+        (he : NoEmbeddedCycle env t — no struct type lies on a cycle of EMBEDDED structs, Spec/Json/EmbedCycle.lean)
+        (d : Nat) :
         expandDecD d env (chooseDec env t a).2 (chooseDec env t a).1 = stdDecD d env t true
 
-Evidence for it: evaluated for d ≤ 12 and both `canAddr` on the ~3900 zoo descriptors (op json.codeceqdec): the only
-counterexamples are the three excluded shapes, which are genuine differences between segmentio and encoding/json
-(`mapKey_both_unmarshalers_differs`, `promoted_unmarshaler_unnamed_struct_differs`,
-`embedded_under_construction_differs_dec`).
+Evidence for it: evaluated for d ≤ 12 and both `canAddr` on the 4792 zoo descriptors (op json.codeceqdec): the only
+counterexamples (88: 12 map keys, 28 promoted unmarshalers, 48 cycles of embedded structs) are the three excluded
+shapes, which are genuine differences between segmentio and encoding/json
+(`mapKey_both_unmarshalers_differs`, `promoted_unmarshaler_unnamed_struct_differs`, `embedded_cycle_differs_dec`); the
+shape that differed before the repair of json/codec.go now agrees (`embedded_under_construction_agrees_dec`).
 -/
 theorem chooseDec_eq_std_partial (env : Env) (t : TD) (a viaPtr : Bool) (hs : SimpleD env t = true)
     (hk : KeysOKD env t = true) (d : Nat) :
@@ -128,20 +131,44 @@ theorem promoted_unmarshaler_unnamed_struct_differs :
     expandDecD 3 env (chooseDec env (.ptr s) true).2 (chooseDec env (.ptr s) true).1 = stdDecD 3 env (.ptr s) true := by
   decide +kernel
 
-/-- **Finding `jsonEmbeddedStructUnderConstruction`, decode side.** `type T struct { X int; F []struct{ T } }` decoded
-through a pointer: the anonymous struct that embeds T takes the field list of the struct type of (T, addressable) while
-it is still empty; `{"X":7,"F":[{"X":7}]}` leaves the inner X at 0 where encoding/json stores 7. -/
-theorem embedded_under_construction_differs_dec :
+/-- **The repair of `jsonEmbeddedStructUnderConstruction`, decode side** (json/codec.go `structType.root`).
+`type T struct { X int; F []struct{ T } }` decoded through a pointer: the anonymous struct that embeds T meets the struct
+type of (T, addressable) while it is under construction for another root, and lists the fields of T a second time
+(`embeddedDecF`): the decoder tree is encoding/json's — for both values of `canAddr`, to every depth up to 8 — and
+`{"X":7,"F":[{"X":7}]}` stores the inner X (before the repair the inner struct had no fields). The type has no cycle of
+embedded structs (`embedCycle = false`). -/
+theorem embedded_under_construction_agrees_dec :
     let env : Env := [(1, ⟨noMeths, .struct (.cons "X" false false (.prim .int)
         (.cons "F" false false (.slice (.struct (.cons "T" true false (.ref 1) .nil))) .nil))⟩)]
+    Enc.Spec.Json.EmbedCycle.embedCycle env (.ptr (.ref 1)) = false ∧
+    (∀ d, d ≤ 8 → ∀ a : Bool,
+      expandDecD d env (chooseDec env (.ptr (.ref 1)) a).2 (chooseDec env (.ptr (.ref 1)) a).1
+        = stdDecD d env (.ptr (.ref 1)) true) ∧
     expandDecD 4 env (chooseDec env (.ptr (.ref 1)) true).2 (chooseDec env (.ptr (.ref 1)) true).1
-        = .ptr (.struct (.cons "X" (.prim .int) (.prim .int)
-            (.cons "F" (.slice (.struct (.cons "T" true false (.ref 1) .nil))) (.slice (.struct .nil)) .nil))) ∧
-    stdDecD 4 env (.ptr (.ref 1)) true
         = .ptr (.struct (.cons "X" (.prim .int) (.prim .int)
             (.cons "F" (.slice (.struct (.cons "T" true false (.ref 1) .nil)))
               (.slice (.struct (.cons "X" (.prim .int) .cut
                 (.cons "F" (.slice (.struct (.cons "T" true false (.ref 1) .nil))) .cut .nil)))) .nil))) := by
+  decide +kernel
+
+/-- **What still differs (class `jsonEmbeddedStructUnderConstruction`): a cycle made of EMBEDDED structs only.**
+`type X4 struct { *U4 }; type U4 struct { *X4; B int; F []struct{ X4 } }` decoded into a `*U4`: the struct type of
+(X4, addressable) is built while U4 is being embedded in it … for the root U4, where the cycle closes and nothing is
+promoted: it has no fields, and it is kept as THE struct type of its key — the elements of F, which embed X4, get no
+fields at all. encoding/json computes the fields of every struct type on its own: B and F are promoted through X4 and U4.
+`{"B":7,"F":[{"B":7}]}`: segmentio leaves the element's X4 nil, encoding/json allocates X4 and U4 and stores 7.
+The checker of the excluded shape says so: `embedCycle = true`. -/
+theorem embedded_cycle_differs_dec :
+    let env : Env := [(1, ⟨noMeths, .struct (.cons "U4" true false (.ptr (.ref 2)) .nil)⟩),
+      (2, ⟨noMeths, .struct (.cons "X4" true false (.ptr (.ref 1)) (.cons "B" false false (.prim .int)
+        (.cons "F" false false (.slice (.struct (.cons "X4" true false (.ref 1) .nil))) .nil)))⟩)]
+    let ft : TD := .slice (.struct (.cons "X4" true false (.ref 1) .nil))
+    Enc.Spec.Json.EmbedCycle.embedCycle env (.ptr (.ref 2)) = true ∧
+    expandDecD 4 env (chooseDec env (.ptr (.ref 2)) true).2 (chooseDec env (.ptr (.ref 2)) true).1
+        = .ptr (.struct (.cons "B" (.prim .int) (.prim .int) (.cons "F" ft (.slice (.struct .nil)) .nil))) ∧
+    stdDecD 4 env (.ptr (.ref 2)) true
+        = .ptr (.struct (.cons "B" (.prim .int) (.prim .int) (.cons "F" ft
+            (.slice (.struct (.cons "B" (.prim .int) (.embedPtr .cut) (.cons "F" ft (.embedPtr .cut) .nil)))) .nil))) := by
   decide +kernel
 
 /-- **Findings about `null`** (the trees agree, what the installed decoder does with `null` does not):
@@ -236,3 +263,5 @@ end Enc.Props.C01CodecDec
 #print axioms Enc.Props.C01CodecDec.calls_history_independent2
 #print axioms Enc.Props.C01CodecDec.promoted_unmarshaler_unnamed_struct_differs
 #print axioms Enc.Props.C01CodecDec.null_handling_agrees
+#print axioms Enc.Props.C01CodecDec.embedded_under_construction_agrees_dec
+#print axioms Enc.Props.C01CodecDec.embedded_cycle_differs_dec
